@@ -3,7 +3,7 @@
 Writes seeded/RESULTS.json: which tier caught it, with which violation keys.  Never leaves /repo modified."""
 import json, os, re, subprocess, sys
 V = os.path.dirname(os.path.dirname(os.path.abspath(__file__)))
-ids = sys.argv[1:] or sorted(d for d in os.listdir(os.path.join(V, "seeded")) if re.match(r"C\d\d$", d))
+ids = sys.argv[1:] or sorted(d for d in os.listdir(os.path.join(V, "seeded")) if re.match(r"C\d\d[a-z]?$", d))
 res = {}
 try: res = json.load(open(os.path.join(V, "seeded", "RESULTS.json")))
 except Exception: pass
@@ -15,7 +15,7 @@ for pid in ids:
     try:
         out = {}
         for tier in ("quick", "thorough"):
-            r = subprocess.run([sys.executable, os.path.join(V, "check.py"), pid, "--tier", tier], capture_output=True, text=True, cwd=V, timeout=7200,
+            r = subprocess.run([sys.executable, os.path.join(V, "check.py"), pid[:3], "--tier", tier], capture_output=True, text=True, cwd=V, timeout=7200,
                                env=dict(os.environ, VERIF_SEED=os.environ.get("VERIF_SEED", "0")))
             viol = re.findall(r"^VIOLATION property=\S+ replay=\S*/([^/\s]+?)_\d+\.json( no-failing-input-found)?", r.stdout, re.M)
             out[tier] = dict(rc=r.returncode, violations=[v[0] + (" (no-failing-input-found)" if v[1] else "") for v in viol])
